@@ -426,7 +426,9 @@ PROPS["C14"] = dict(
     technique="contract-based deductive verification (pyvc: VCs from the real AST, z3) for the integer/categorical candidate "
               "enumeration; everything else of C14 only by a BOUNDED run-time stand-in on the real code (labelled bounded, not proved)",
     claim="Proved for all inputs: _enumerate_candidates of an IntDistribution is exactly low, low+step, ... <= high in order, each "
-          "once, and of a CategoricalDistribution exactly the indices 0..n-1. BOUNDED (not proved): stepped-float candidates equal "
+          "once, and of a CategoricalDistribution exactly the indices 0..n-1; GridSampler._get_unvisited_grid_ids returns only grid "
+          "indices in range that no FINISHED trial of this grid carries, and returns nothing only if every grid index is carried "
+          "by a finished trial (so the sampler neither re-issues a finished point nor lets after_trial stop early). BOUNDED (not proved): stepped-float candidates equal "
           "the exact rational grid on a lattice of 280 (low, high, step) triples; BruteForceSampler evaluates every reachable "
           "combination exactly once and stops by itself on 7 tree-shaped define-by-run programs x seeds x {plain, failing trials, "
           "run split across two sampler objects}; GridSampler evaluates every grid point once, also when interrupted and "
